@@ -597,3 +597,127 @@ package circuitbreaker
 //@   requires cb != nil
 //@   ensures [C14.metrics_view_is_the_locked_breaker+C03.api.metrics_is_the_breaker] result == asiface(cb)
 //@   modifies nothing
+
+// One executor per execution: fresh, pointing back at itself (the template dispatches PreExecute / PostExecute through that
+// pointer) and at this policy.
+//@ func (*circuitBreaker).ToExecutor
+//@   builder
+//@   requires cb != nil && cb.config != nil
+//@   let x := asref(result, *executor)
+//@   ensures [C01.toexecutor.fresh_self_referential+C03.toexecutor] typeis(result, *executor) && fresh(x) && x.circuitBreaker == cb && x.BaseExecutor != nil && fresh(x.BaseExecutor) && typeis(x.Executor, *executor) && asref(x.Executor, *executor) == x && x.BaseExecutor.BaseFailurePolicy == cb.BaseFailurePolicy
+//@   modifies nothing
+
+// ---------------------------------------------------------------------------------------------
+// Builder: defaults (count based, opens after one failure, capacity 1, one minute delay) and the threshold setters.
+//@ extfunc github.com/failsafe-go/failsafe-go/internal/util.NewClock
+//@   modifies nothing
+//@   ensures result != nil
+//@ macro thresholdsSame(c, skipF, skipS) = (skipF || (c.failureThreshold == old(c.failureThreshold) && c.failureThresholdingCapacity == old(c.failureThresholdingCapacity) && c.failureExecutionThreshold == old(c.failureExecutionThreshold) && c.failureThresholdingPeriod == old(c.failureThresholdingPeriod) && c.failureRateThreshold == old(c.failureRateThreshold))) && (skipS || (c.successThreshold == old(c.successThreshold) && c.successThresholdingCapacity == old(c.successThresholdingCapacity)))
+//@ func Builder
+//@   builder
+//@   let c := asref(result, *config)
+//@   ensures [C03.builder.defaults] typeis(result, *config) && fresh(c) && c.failureThreshold == 1 && c.failureThresholdingCapacity == 1 && c.failureExecutionThreshold == 0 && c.failureThresholdingPeriod == 0 && c.failureRateThreshold == 0 && c.successThreshold == 0 && c.successThresholdingCapacity == 0 && c.BaseDelayablePolicy != nil && c.Delay == 60000000000 && c.DelayFunc == nil && c.clock != nil && c.BaseFailurePolicy != nil
+//@   modifies nothing
+//@ func (*config).WithFailureThresholdRatio
+//@   builder
+//@   requires c != nil
+//@   ensures [C03.builder.failure_ratio] c.failureThreshold == failureThreshold && c.failureThresholdingCapacity == failureThresholdingCapacity && c.failureExecutionThreshold == old(c.failureExecutionThreshold) && c.failureThresholdingPeriod == old(c.failureThresholdingPeriod) && c.failureRateThreshold == old(c.failureRateThreshold) && thresholdsSame(c, true, false) && result == asiface(c)
+//@   modifies c.failureThreshold, c.failureThresholdingCapacity
+//@ func (*config).WithFailureThreshold
+//@   builder
+//@   requires c != nil
+//@   ensures [C03.builder.failure_threshold] c.failureThreshold == failureThreshold && c.failureThresholdingCapacity == failureThreshold && thresholdsSame(c, true, false) && result == asiface(c)
+//@   modifies c.failureThreshold, c.failureThresholdingCapacity
+//@ func (*config).WithFailureThresholdPeriod
+//@   builder
+//@   requires c != nil
+//@   ensures [C03.builder.failure_period] c.failureThreshold == failureThreshold && c.failureThresholdingCapacity == failureThreshold && c.failureExecutionThreshold == failureThreshold && c.failureThresholdingPeriod == failureThresholdingPeriod && c.failureRateThreshold == old(c.failureRateThreshold) && thresholdsSame(c, true, false) && result == asiface(c)
+//@   modifies c.failureThreshold, c.failureThresholdingCapacity, c.failureExecutionThreshold, c.failureThresholdingPeriod
+//@ func (*config).WithFailureRateThreshold
+//@   builder
+//@   requires c != nil
+//@   ensures [C03.builder.failure_rate] c.failureRateThreshold == failureRateThreshold && c.failureExecutionThreshold == failureExecutionThreshold && c.failureThresholdingPeriod == failureThresholdingPeriod && c.failureThreshold == old(c.failureThreshold) && c.failureThresholdingCapacity == old(c.failureThresholdingCapacity) && thresholdsSame(c, true, false) && result == asiface(c)
+//@   modifies c.failureRateThreshold, c.failureExecutionThreshold, c.failureThresholdingPeriod
+//@ func (*config).WithSuccessThresholdRatio
+//@   builder
+//@   requires c != nil
+//@   ensures [C03.builder.success_ratio] c.successThreshold == successThreshold && c.successThresholdingCapacity == successThresholdingCapacity && thresholdsSame(c, false, true) && result == asiface(c)
+//@   modifies c.successThreshold, c.successThresholdingCapacity
+//@ func (*config).WithSuccessThreshold
+//@   builder
+//@   requires c != nil
+//@   ensures [C03.builder.success_threshold] c.successThreshold == successThreshold && c.successThresholdingCapacity == successThreshold && thresholdsSame(c, false, true) && result == asiface(c)
+//@   modifies c.successThreshold, c.successThresholdingCapacity
+//@ func (*config).WithDelay
+//@   builder
+//@   requires c != nil && c.BaseDelayablePolicy != nil
+//@   ensures [C03.builder.delay] c.Delay == delay && thresholdsSame(c, false, false) && result == asiface(c)
+//@   modifies c.BaseDelayablePolicy.Delay
+//@ func (*config).WithDelayFunc
+//@   builder
+//@   requires c != nil && c.BaseDelayablePolicy != nil
+//@   ensures [C03.builder.delay_func] c.DelayFunc == delayFunc && c.Delay == old(c.Delay) && thresholdsSame(c, false, false) && result == asiface(c)
+//@   modifies c.BaseDelayablePolicy.DelayFunc
+
+// The metric getters: one critical section each (C14: lock ownership of the state and its statistics); the values are
+// those of the current state's statistics object. IsOpen / IsHalfOpen / IsClosed read State().
+//@ func (*circuitBreaker).Executions
+//@   locks cb
+//@   requires cb != nil && !held(mutexof(cb, "mtx"))
+//@   havoc
+//@   modifies methodcalls
+//@ func (*circuitBreaker).Failures
+//@   locks cb
+//@   requires cb != nil && !held(mutexof(cb, "mtx"))
+//@   havoc
+//@   modifies methodcalls
+//@ func (*circuitBreaker).FailureRate
+//@   locks cb
+//@   requires cb != nil && !held(mutexof(cb, "mtx"))
+//@   havoc
+//@   modifies methodcalls
+//@ func (*circuitBreaker).Successes
+//@   locks cb
+//@   requires cb != nil && !held(mutexof(cb, "mtx"))
+//@   havoc
+//@   modifies methodcalls
+//@ func (*circuitBreaker).SuccessRate
+//@   locks cb
+//@   requires cb != nil && !held(mutexof(cb, "mtx"))
+//@   havoc
+//@   modifies methodcalls
+//@ func (*circuitBreaker).IsOpen
+//@   requires cb != nil && !held(mutexof(cb, "mtx"))
+//@   oncall (*circuitBreaker).State: st := callresult
+//@   ensures [C03.api.isopen] result == (st == OpenState)
+//@   modifies nothing
+//@ func (*circuitBreaker).IsHalfOpen
+//@   requires cb != nil && !held(mutexof(cb, "mtx"))
+//@   oncall (*circuitBreaker).State: st := callresult
+//@   ensures [C03.api.ishalfopen] result == (st == HalfOpenState)
+//@   modifies nothing
+//@ func (*circuitBreaker).IsClosed
+//@   requires cb != nil && !held(mutexof(cb, "mtx"))
+//@   oncall (*circuitBreaker).State: st := callresult
+//@   ensures [C03.api.isclosed] result == (st == ClosedState)
+//@   modifies nothing
+//@ func (*config).OnStateChanged
+//@   builder
+//@   requires c != nil
+//@   ensures [C16.breaker.listener_registered_onstatechanged] c.stateChangedListener == listener && c.openListener == old(c.openListener) && c.closeListener == old(c.closeListener) && c.halfOpenListener == old(c.halfOpenListener) && result == asiface(c)
+//@   modifies c.stateChangedListener
+//@ func (*config).OnOpen
+//@   builder
+//@   requires c != nil
+//@   ensures [C16.breaker.listener_registered_onopen] c.openListener == listener && c.stateChangedListener == old(c.stateChangedListener) && c.closeListener == old(c.closeListener) && c.halfOpenListener == old(c.halfOpenListener) && result == asiface(c)
+//@   modifies c.openListener
+//@ func (*config).OnClose
+//@   builder
+//@   requires c != nil
+//@   ensures [C16.breaker.listener_registered_onclose] c.closeListener == listener && c.stateChangedListener == old(c.stateChangedListener) && c.openListener == old(c.openListener) && c.halfOpenListener == old(c.halfOpenListener) && result == asiface(c)
+//@   modifies c.closeListener
+//@ func (*config).OnHalfOpen
+//@   builder
+//@   requires c != nil
+//@   ensures [C16.breaker.listener_registered_onhalfopen] c.halfOpenListener == listener && c.stateChangedListener == old(c.stateChangedListener) && c.openListener == old(c.openListener) && c.closeListener == old(c.closeListener) && result == asiface(c)
+//@   modifies c.halfOpenListener
